@@ -206,7 +206,7 @@ def gen_cases(rng, tier):
         add("authr", [hx("alice"), hx("example.org"), hx("n0nce"), hx("sip:bob@example.org"), hx("6629fae49393a05397450978507c4ef1"), "MD5", "-", "auth", hx("0a4f113b"), str(nc), "0", "0"])
     for _ in range(60 if tier == "quick" else 1500):
         qop = rng.choice(["-", "auth", "auth-int", "auth", "token"])
-        user = rng.choice(["alice", "bob smith", "ü", "a@b", "+4912345", "x\"y"])
+        user = rng.choice(["alice", "bob smith", "ü", "a@b", "+4912345", "x\"y", "50%25 off", "100% sûr", "%41 b", "a%b@c"])
         # RFC 7616 3.4.4: userhash=true together with username* is an error (the parser rejects it): not a value to round-trip
         uh = rng.choice("01") if re.fullmatch(r"[A-Za-z0-9!#$&+.^_`|~-]+", user) else "0"
         add("authr", [hx(user), hx(rng.choice(QTEXT)), hx(rng.choice(QTEXT)), hx(rng.choice(QTEXT)), hx(rng.choice(QTEXT)),
